@@ -729,6 +729,9 @@ func (la *LockAnalysis) CheckGuarded(r *Run, rule, structName, field, lockID str
 			detail = "held here: " + la.HeldAt(b).String() + " (entry " + la.entry[kk.fn].String() + ")"
 		}
 		_, isBad := bad[kk]
+		if !pos.IsValid() {
+			pos = kk.fn.Pos()
+		}
 		r.Check(rule, Key(rule, kk.fn, field+":"+kind), pos, !isBad,
 			kind+" of "+structName+"."+field+" happens with "+lockID+" held", kind+" of "+structName+"."+field+" without "+lockID+"; "+detail)
 	}
